@@ -1323,3 +1323,47 @@ def result_outcome_arms(b, is_outcome_ty):
                 if f is not None:
                     (oks if neg else errs).add(f)
     return oks, errs
+
+
+EVENT_LOOPS = {
+    # body -> (anchor call of the loop, {awaited callee regex: why it is fine to suspend there})
+    r"^jsonrpsee_server::server::Server::<.*>::start_inner::\{closure#0\}$": (
+        r"^jsonrpsee_server::server::try_accept_conn$",
+        {r"^jsonrpsee_server::server::try_accept_conn$": "races accept() against the stop signal"},
+    ),
+    r"^jsonrpsee_server::transport::ws::background_task::\{closure#0\}$": (
+        r"^jsonrpsee_server::transport::ws::try_recv$",
+        {
+            r"^jsonrpsee_server::transport::ws::try_recv$": "races the socket against stop, ping timer and pong timeout",
+            r"^jsonrpsee_core::server::(helpers::)?MethodSink::send_error$": "answer to an oversized message; ends when the connection's writer ends",
+        },
+    ),
+}
+
+
+def event_loops_suspend_only_where_vetted(ctx, rule):
+    """the accept loop and the per-connection WebSocket loop are what notices a new connection (and answers 429), a stop
+    request, a vanished peer (and so frees the connection's slot). While such a loop is suspended on anything else it does
+    none of that, so the places where it may await are a closed, vetted list (like the spawn sites): any other `.await`
+    inside the loop - a peek on the fresh socket, a semaphore acquire for back-pressure - stalls admission or keeps the
+    slot of a dead connection."""
+    F, R = ctx.F, ctx.R
+    tr = ctx.tracer(follow_callers=False, follow_fields=False, inline_calls=False)
+    n = 0
+    for pat, (anchor, vetted) in EVENT_LOOPS.items():
+        b = F.one(pat)
+        R.fn(b)
+        anchors = b.calls_to(anchor)
+        if not anchors:
+            raise AnchorLost("the loop's own wait (%s) in %s" % (anchor, b.path))
+        a = anchors[0]
+        loop = {x for x in b.reach_from(a.bb) if a.bb in b.reach_from(x)} | {a.bb}
+        for c in b.calls_to(r"IntoFuture>?::into_future$"):
+            if c.bb not in loop:
+                continue
+            n += 1
+            lv = tr.origins(b, c.args[0])
+            names = sorted({(l.detail.get("callee") or "?") if l.kind == "call" else leaf_str(l)[:60] for l in lv})
+            ok = bool(names) and all(any(re.search(v, nm) for v in vetted) for nm in names)
+            R.check(ok, rule, "%s:await:%s" % (fkey(b), "+".join(short(x) for x in names)[:80]), "the loop suspends at a vetted point (%s)" % ", ".join(short(x) for x in names), "%s awaits %s inside its loop: that is not one of the vetted suspension points (%s). While the loop waits there it does not accept / refuse new connections, does not see the stop signal and does not notice that the peer is gone, so the connection's slot is not released" % (short(b.path), [short(x) for x in names], ", ".join(short(v.strip("^$")) for v in vetted)), where(c))
+    R.floor(rule, n, 3, "await points inside the accept / connection loops")
